@@ -101,6 +101,8 @@ def stepLine (s : St) (toks : List String) : St × String :=
   | ["has", x] | ["hasb", x] => match x.toNat? with
     | some x => let r := step s (.has x); (r.1, showOut r.2)
     | none => (s, "bad-op")
+  | ["state"] =>
+    (s, s!"size={s.size} ids={showNats s.ids} known={showNats (sortBy id s.known)}")
   | ["all", u] => match u.toNat? with
     | some u => (s, showNats ((List.range u).filter (fun x => decide (x ∈ s.known))))
     | none => (s, "bad-op")
